@@ -348,6 +348,11 @@ def check_object_all(obj, case: dict, only_variant: Optional[str] = None) -> Lis
     if d:
         return [C.Failing(f"write:json:mapping:{d[0]}", f"SDK JSON differs from the specification's mapping for {type(obj).__name__}: {d[1][:200]}",
                           dict(case, dir="write"))]
+    # ---- transcoding: what was read from one format is written schema-valid in the other (and denotes the same data)
+    if only_variant is None:
+        f = transcode_check(obj, key, V, sdk_doc, buf.getvalue(), case)
+        if f:
+            return [f]
     # ---- instances of application-defined subclasses are written under the metamodel class they specialise
     if only_variant is None:
         f = subclass_check(obj, key, V, sdk_doc, buf.getvalue(), case)
@@ -386,6 +391,51 @@ def check_object_all(obj, case: dict, only_variant: Optional[str] = None) -> Lis
             found.append(C.Failing(f"read:json:differs:{variant}", f"data read from a spec-written document differs ({variant}): {dd[:200]}",
                                    dict(case, dir="read", variant=variant)))
     return found
+
+
+def transcode_check(obj, key, V, sdk_doc, sdk_xml: bytes, case) -> Optional[C.Failing]:
+    """JSON document -> strict reader -> XML writer -> XSD, and XML document -> strict reader -> JSON writer -> JSON schema; the
+    objects a reader builds must be as good as the application's own for the OTHER writer; also: the reader's results are
+    independent objects (the first result is edited in place, then the document is read again)"""
+    from lxml import etree
+    from basyx.aas import model
+    from basyx.aas.adapter.json import AASToJsonEncoder, read_aas_json_file
+    from basyx.aas.adapter.xml import write_aas_xml_file, read_aas_xml_file
+    from vf import canon
+    from props import c03
+    want = canon.canon(obj)
+    try:
+        from_json = list(read_aas_json_file(io.StringIO(json.dumps(sdk_doc)), failsafe=False))
+        from_xml = list(read_aas_xml_file(io.BytesIO(sdk_xml), failsafe=False))
+        if len(from_json) != 1 or len(from_xml) != 1:
+            return None                                  # round trips are C03 / C04's business
+        b = io.BytesIO()
+        write_aas_xml_file(b, model.DictObjectStore(from_json))
+        x = etree.fromstring(b.getvalue())
+        if not V["xml"].validate(x):
+            err = V["xml"].error_log[0]
+            m = re.search(r"Element '\{[^}]*\}(\w+)'", err.message)
+            return C.Failing(f"write:xml:schema-invalid-after-json-read:{m.group(1) if m else 'unknown'}",
+                             f"XML written from objects that were read from JSON violates the XSD: {err.message[:200]}", dict(case, dir="write"))
+        j = {key: [json.loads(json.dumps(from_xml[0], cls=AASToJsonEncoder))]}
+        errs = sorted(V["json"].iter_errors(j), key=lambda e: list(e.absolute_path))
+        if errs:
+            e = errs[0]
+            where = ".".join(str(p) for p in e.absolute_path if not isinstance(p, int))
+            return C.Failing(f"write:json:schema-invalid-after-xml-read:{where.split('.')[-1] if where else 'root'}",
+                             f"JSON written from objects that were read from XML violates the schema at {where}: {e.message[:140]}", dict(case, dir="write"))
+        # independence of the reader's results
+        for fmt, first, again in (("json", from_json[0], lambda: list(read_aas_json_file(io.StringIO(json.dumps(sdk_doc)), failsafe=False))),
+                                  ("xml", from_xml[0], lambda: list(read_aas_xml_file(io.BytesIO(sdk_xml), failsafe=False)))):
+            if c03.scribble(first):
+                second = again()
+                d = canon.diff(want, canon.canon(second[0])) if len(second) == 1 else "count"
+                if d:
+                    return C.Failing(f"read:{fmt}:second-read-sees-edits-of-first", f"the {fmt} document read again after the first result was "
+                                     f"edited in place: {d[:200]}", dict(case, dir="read"))
+    except Exception as e:
+        return C.Failing(f"transcode:raises:{type(e).__name__}", f"{type(obj).__name__}: {e!r}"[:250], dict(case, dir="write"))
+    return None
 
 
 def subclass_check(obj, key, V, sdk_doc, sdk_xml: bytes, case) -> Optional[C.Failing]:
@@ -517,7 +567,7 @@ def oracle(ctx: C.Ctx, cov: C.Coverage, n: Optional[int] = None, seed: Optional[
     out, sigs = [], set()
     seed = ctx.seed if seed is None else seed
     depth = 3 if ctx.tier == "quick" else 4
-    for i, obj in spec_objects(seed, n or ctx.budget(90, 3000), depth):
+    for i, obj in spec_objects(seed, n or ctx.budget(55, 3000), depth):
         cov.hit("oracle-object")
         for f in check_object_all(obj, {"seed": seed, "index": i, "depth": depth}):
             if f.sig not in sigs:
